@@ -61,6 +61,7 @@ static void do_signal(int bcast)
 static void env_step(void)
 {
     int who = nondet_int();
+    vr_env_noblock = 1;   /* every environment operation of this scenario is non-blocking: blocking paths inside them are pruned */
     as_agent(AGENT_T);
     if (who == 1 && sigs_left > 0) { sigs_left--; do_signal(0); }
     else if (who == 2 && sigs_left > 0) { sigs_left--; do_signal(1); }
@@ -75,6 +76,7 @@ static void env_step(void)
         else { D2.p_prev->p_next = D2.p_next; if (D2.p_next) D2.p_next->p_prev = D2.p_prev; else CV.waitlist.p_tail = D2.p_prev; }
         n2_state = 2;
     }
+    vr_env_noblock = 0;
 }
 static void vr_after_switch(int k)
 {
